@@ -321,15 +321,35 @@ theorem alligator_report_annotations_too_long (jaw teeth lip : Nat) (h0 : 1 ≤ 
   simp only [evalL] at this
   rw [this]; omega
 
-/-- **As-is, non-default configuration**: VwmaStrategy has two independent public periods (`Sma.Period`, `Vwma.Period`;
-    vwma_strategy.go:24-28) but Report shifts *both* columns by `Vwma.Period − 1` (vwma_strategy.go:87-88): the SMA column
-    has `n + Vwma.Period − Sma.Period` values — n exactly when the two periods agree. -/
-theorem vwma_report_sma_column_mismatch (ps pv : Nat) (h0 : 1 ≤ ps) (h1 : 1 ≤ pv) (x : Nat → Nat → α) (n : Nat)
+/-- **Before fix F14** (recorded for the history of the finding): VwmaStrategy has two independent public periods (`Sma.Period`,
+    `Vwma.Period`); `Report` used to shift *both* columns by `Vwma.Period − 1`, so the SMA column had `n + Vwma.Period − Sma.Period`
+    values — n exactly when the two periods agree.  This theorem is what exposed the defect. -/
+theorem vwma_report_sma_column_mismatch_before_fix (ps pv : Nat) (h0 : 1 ≤ ps) (h1 : 1 ≤ pv) (x : Nat → Nat → α) (n : Nat)
     (hn : ps - 1 ≤ n) :
     (evalL (envOf x 5 n) (shift (pv - 1) zero (sma ps (sClose : Sig α)))).length + ps = n + pv := by
   have hg : Good (sma ps (sClose : Sig α)) (ps - 1) 5 := by
     simp only [Strat.sClose]; unfold_ind; good_tac
   rw [C05.evalL_shift]; simp [hg.length x n]; omega
+
+/-- **After fix F14**: both columns are forwarded to the common idle period and shifted by it: n values each, for every pair of
+    periods (vwma_strategy.go: `SyncPeriod(idle, …)` in calculateSmaAndVwma, `Shift(…, v.IdlePeriod(), 0)` in Report). -/
+theorem vwmaG_report_columns (ps pv : Nat) (h0 : 1 ≤ ps) (h1 : 1 ≤ pv) (x : Nat → Nat → α) (n : Nat)
+    (hn : Nat.max (ps - 1) (pv - 1) ≤ n) :
+    (evalL (envOf x 5 n) (shift (Nat.max (ps - 1) (pv - 1)) zero
+        (Strat.syncPeriod (Nat.max (ps - 1) (pv - 1)) (ps - 1) (sma ps (sClose : Sig α))))).length = n ∧
+    (evalL (envOf x 5 n) (shift (Nat.max (ps - 1) (pv - 1)) zero
+        (Strat.syncPeriod (Nat.max (ps - 1) (pv - 1)) (pv - 1) (vwma pv (sClose : Sig α) sVol)))).length = n := by
+  have gs : Good (sma ps (sClose : Sig α)) (ps - 1) 5 := by
+    simp only [Strat.sClose]; unfold_ind; good_tac
+  have gv : Good (vwma pv (sClose : Sig α) sVol) (pv - 1) 5 := by
+    simp only [Strat.sClose, Strat.sVol]; unfold_ind; good_tac
+  have a := C05.Good.syncPeriod (Nat.max (ps - 1) (pv - 1)) (ps - 1) gs
+  have b := C05.Good.syncPeriod (Nat.max (ps - 1) (pv - 1)) (pv - 1) gv
+  have hm : Nat.max (ps - 1) (pv - 1) = max (ps - 1) (pv - 1) := rfl
+  rw [hm] at hn a b ⊢
+  constructor
+  · rw [C05.evalL_shift]; simp [a.length x n]; omega
+  · rw [C05.evalL_shift]; simp [b.length x n]; omega
 
 /-! ### BuyAndHold (strategy/buy_and_hold_strategy.go:57-75): no indicator column; closings and actions as computed -/
 
